@@ -28,6 +28,15 @@ def errkind(e):
     return "other:" + type(e).__name__
 
 
+def safe_str(x):
+    # printing can itself fail: ExteriorProduct keeps a raw Python int operand (wedge(0, w)) and
+    # sympy's printer then asks it for .is_number
+    try:
+        return str(x)
+    except Exception as e:  # noqa
+        return "<str() raised %s>" % errkind(e)
+
+
 class Ctx:
     def __init__(self):
         import sympy
@@ -180,7 +189,7 @@ class Ctx:
             out = {"pass": ok, "lhs": self.ser(lhs), "rhs": self.ser(rhs)}
             if not ok:
                 out["reeval_equal"] = bool(self.closure(lhs) == self.closure(rhs))
-                out["lhs_str"], out["rhs_str"] = str(lhs), str(rhs)
+                out["lhs_str"], out["rhs_str"] = safe_str(lhs), safe_str(rhs)
             return out
         except Exception as e:  # noqa
             return {"raised": errkind(e)}
